@@ -122,8 +122,11 @@ def h_step(ctx, cfg, tgt, verb):
         has_rx = bool(ctx.bool('pre.rx')); has_tx = bool(ctx.bool('pre.tx')); has_fh = bool(ctx.bool('pre.fh'))
         if has_rx: t._rx_freq = ctx.int('pre.rxf', 0, 1 << 31)
         if has_tx: t._tx_freq = ctx.int('pre.txf', 0, 1 << 31)
+        kids = list(t.child_trx_list.trx_list) if t.child_idx == 0 else []
         for x in tl:
             if x is t and not has_fh: continue
+            # the children of the addressed transceiver may or may not be configured: a parent's power command reaches them either way
+            if x is not t and any(x is k for k in kids) and not bool(ctx.bool('pre.%s.configured' % x.name)): continue
             x.enable_fh(ctx.int('pre.%s.hsn' % x.name, 0, 63), ctx.int('pre.%s.maio' % x.name, 0, 63), [(1, 2), (3, 4)])
             if bool(ctx.bool('pre.%s.queued' % x.name)): x._tx_queue.append(object())
         invariant(ctx, app, 'pre')
